@@ -1013,7 +1013,7 @@ func runC15(c *runCtx) error {
 	// newRng(n) and newRng(n+1) produce the same stream shifted by one draw; seeding through one
 	// mixed draw decorrelates consecutive seeds
 	r := newRng(newRng(c.seed).next())
-	e := newEmitter(c.out, "C15", "From Coq Require Import List String.\nFrom KV Require Import Model.Token Model.Ast Model.ExprParser Corr.C15.\nImport ListNotations.\nOpen Scope string_scope.\n", 300)
+	e := newEmitter(c.out, "C15", "From Coq Require Import List String.\nFrom KV Require Import Base.Bytes Model.Token Model.Ast Model.ExprParser Model.ScanIO Corr.C15Text Corr.C15.\nImport ListNotations.\nOpen Scope string_scope.\n", 300)
 	e.m.Rule = "one case = one query text run through Lexer.Split and Parser.Parse, its rendering, the rendering's tokens and its re-parse; flat: every operator sequence over 10 spellings up to the length bound; raw: random untyped trees (depth<=4) written with minimal/random/full parentheses, random case and spacing, and single-edit corruptions; accepted: typed statements the library accepts; stmt: whole statements of every kind (SELECT lists / AS / *, WHERE-only, ORDER BY / GROUP BY / LIMIT tails, PUT, REMOVE, DELETE, trailing semicolons) from a typed and an untyped grammar plus single-edit corruptions, accept / reject, error offset and the accepted statement tree compared with Model/StmtParser.v; non-trivial = at least one operator (flat: at least two); distinct = distinct Gallina case terms"
 	h := &c15{e: e, c: c}
 	h.precTable()
@@ -1150,6 +1150,7 @@ func runC15(c *runCtx) error {
 		h.emit(1, q, t, c15Styles[g.style], "untyped operand inside a typed frame")
 	}
 	c15StmtStream(h)
+	c15TextStream(h)
 	e.m.Exhaustive = true
 	if c.thorough() {
 		e.m.Notes = append(e.m.Notes, fmt.Sprintf("flat operator sequences exhaustive up to length %d over %v", flatLen, c15FlatOps))
